@@ -12,13 +12,13 @@ Definition cp_full : caps :=
   {| cap_rgb := true; cap_styled_ul := true; cap_sync := false; cap_explicit_width := false |}.
 
 (* the capability set Vaxis must derive from the emulator's replies: the emulator answers DA1
-   with the sixel attribute and nothing else that Vaxis asks about *)
+   with the sixel attribute and reports mode 2027 (grapheme clustering) as permanently set; nothing else that Vaxis asks about *)
 Definition term_caps : caps :=
   {| cap_rgb := false; cap_styled_ul := false; cap_sync := false; cap_explicit_width := false |}.
 (* order: sync, unicode, theme, inband, kittykb, kittygfx, sixel, size chars, size pixels,
    explicit width, rgb, styled underlines, osc4, osc10, osc11, osc176 *)
 Definition term_caps_reported : list bool :=
-  [false; false; false; false; false; false; true; false; false; false; false; false; false; false; false; false].
+  [false; true; false; false; false; false; true; false; false; false; false; false; false; false; false; false].
 
 Definition ecell_shows (d : disp) (e : ecell) : bool :=
   match d with
